@@ -122,7 +122,6 @@ func vfC20Decode(n *vfNet, s13 ref.Suite13, secret0 []byte, epoch0 uint16, from 
 	return recs, undecodable, maxGen
 }
 
-
 func vfC20Run(t *testing.T, res *vfResult, c vfC20Case, realTime bool) {
 	res.Eval(1)
 	replay := map[string]any{"case": c}
